@@ -4,6 +4,8 @@ C07 — Protocol enforced: no put/get without a valid reservation of one's own.
 import FsVerif.Proofs.PosExtra
 import FsVerif.Proofs.BufExtra
 import FsVerif.Proofs.Fleet
+import FsVerif.Model.SlotBelt
+import FsVerif.Model.CBelt
 namespace FsVerif.Props.C07
 open FsVerif PosStore
 
@@ -195,5 +197,125 @@ theorem fleet_put_accepted {s : FleetStore} (hr : FleetStore.ReachD s) {p tid : 
   simp only at hb
   subst hb
   rfl
+
+/-! ### both conveyor stores (slotted_belt_store.py, belt_store.py behind their edges): a put / get without a granted reservation of
+the caller's own, and a cancellation of a token the store does not hold, are rejected with RuntimeError and change NOTHING - contents,
+reservations, travel processes, kernel queue, state machine (the whole model state is returned as it was).  Any state, reachable or not. -/
+
+theorem slot_put_rejected (s : SlotBelt) (p tid : Nat) (x : Item) (h : ¬ ∃ t ∈ s.putRes, t.id = tid ∧ t.proc = p) :
+    s.put p tid x = (s, .err .runtime) := by
+  unfold SlotBelt.put
+  split
+  · rfl
+  · split
+    · rfl
+    · rename_i t ht
+      exfalso
+      have hm := List.mem_of_find?_eq_some ht
+      have hp := List.find?_some ht
+      simp only [Bool.and_eq_true, beq_iff_eq] at hp
+      exact h ⟨t, hm, hp.1, hp.2⟩
+
+theorem slot_get_rejected (s : SlotBelt) (p tid : Nat) (h : ¬ ∃ t ∈ s.getRes, t.id = tid ∧ t.proc = p) :
+    s.get p tid = (s, .err .runtime) := by
+  unfold SlotBelt.get
+  split
+  · rfl
+  · split
+    · rfl
+    · rename_i t ht
+      exfalso
+      have hm := List.mem_of_find?_eq_some ht
+      have hp := List.find?_some ht
+      simp only [Bool.and_eq_true, beq_iff_eq] at hp
+      exact h ⟨t, hm, hp.1, hp.2⟩
+
+theorem slot_cancelPut_rejected (s : SlotBelt) (tid : Nat) (h : ¬ ∃ t ∈ s.putQ ++ s.putRes, t.id = tid) :
+    s.cancelPut tid = (s, .err .runtime) := by
+  unfold SlotBelt.cancelPut
+  split
+  · rename_i t ht
+    exfalso
+    have := findTok_some ht
+    exact h ⟨t, List.mem_append_left _ this.1, this.2⟩
+  · split
+    · rename_i t ht
+      exfalso
+      have := findTok_some ht
+      exact h ⟨t, List.mem_append_right _ this.1, this.2⟩
+    · rfl
+
+theorem slot_cancelGet_rejected (s : SlotBelt) (tid : Nat) (h : ¬ ∃ t ∈ s.getQ ++ s.getRes, t.id = tid) :
+    s.cancelGet tid = (s, .err .runtime) := by
+  unfold SlotBelt.cancelGet
+  split
+  · rename_i t ht
+    exfalso
+    have := findTok_some ht
+    exact h ⟨t, List.mem_append_left _ this.1, this.2⟩
+  · split
+    · rename_i t ht
+      exfalso
+      have := findTok_some ht
+      exact h ⟨t, List.mem_append_right _ this.1, this.2⟩
+    · rfl
+
+theorem cbelt_put_rejected (s : CBelt) (p tid : Nat) (x : Item) (h : ¬ ∃ t ∈ s.putRes, t.id = tid ∧ t.proc = p) :
+    s.put p tid x = (s, .err .runtime) := by
+  unfold CBelt.put
+  split
+  · rfl
+  · split
+    · rfl
+    · rename_i t ht
+      exfalso
+      have hm := List.mem_of_find?_eq_some ht
+      have hp := List.find?_some ht
+      simp only [Bool.and_eq_true, beq_iff_eq] at hp
+      exact h ⟨t, hm, hp.1, hp.2⟩
+
+theorem cbelt_get_rejected (s : CBelt) (p tid : Nat) (h : ¬ ∃ t ∈ s.getRes, t.id = tid ∧ t.proc = p) :
+    s.get p tid = (s, .err .runtime) := by
+  unfold CBelt.get
+  split
+  · rfl
+  · split
+    · rfl
+    · rename_i t ht
+      exfalso
+      have hm := List.mem_of_find?_eq_some ht
+      have hp := List.find?_some ht
+      simp only [Bool.and_eq_true, beq_iff_eq] at hp
+      exact h ⟨t, hm, hp.1, hp.2⟩
+
+theorem cbelt_cancelPut_rejected (s : CBelt) (tid : Nat) (h : ¬ ∃ t ∈ s.putQ ++ s.putRes, t.id = tid) :
+    s.cancelPut tid = (s, .err .runtime) := by
+  unfold CBelt.cancelPut
+  split
+  · rename_i t ht
+    exfalso
+    have := findTok_some ht
+    exact h ⟨t, List.mem_append_left _ this.1, this.2⟩
+  · split
+    · rename_i t ht
+      exfalso
+      have := findTok_some ht
+      exact h ⟨t, List.mem_append_right _ this.1, this.2⟩
+    · rfl
+
+theorem cbelt_cancelGet_rejected (s : CBelt) (tid : Nat) (h : ¬ ∃ t ∈ s.getQ ++ s.getRes, t.id = tid) :
+    s.cancelGet tid = (s, .err .runtime) := by
+  unfold CBelt.cancelGet
+  split
+  · rename_i t ht
+    exfalso
+    have := findTok_some ht
+    exact h ⟨t, List.mem_append_left _ this.1, this.2⟩
+  · split
+    · rename_i t ht
+      exfalso
+      have := findTok_some ht
+      exact h ⟨t, List.mem_append_right _ this.1, this.2⟩
+    · rfl
 
 end FsVerif.Props.C07
